@@ -10,9 +10,10 @@
 -/
 import TypedpyModel.Drive.Wire
 import TypedpyModel.Sem.Stub
+import TypedpyModel.Sem.StubText
 namespace Typedpy.Drive.Stub
 open Lean (Json)
-open Typedpy.Wire Typedpy.Stub
+open Typedpy.Wire Typedpy.Stub Typedpy.StubText
 
 def fieldOfJson (j : Json) : Except String FieldInfo := do
   let n ← (← j.getObjVal? "n").getStr?
@@ -71,6 +72,113 @@ def report (dflt apd : Bool) (c : ClassInfo) : Json :=
     ("inheritedAddlOff", .bool (inheritedAddlOff dflt c)),
     ("mandatoryFirst", .bool (mandatoryFirst (stubInit dflt apd c).params))]
 
+/-! ### the text tie: annotation ASTs in, the real header texts in; model tokens vs lexed real text, parser verdicts out -/
+
+partial def annOfJson (j : Json) : Except String Ann :=
+  match j with
+  | .str "..." => pure .ellipsis
+  | _ => do
+    if let some x := optField j "n" then
+      return .name (← (← x.getArr?).toList.mapM (·.getStr?))
+    if let some x := optField j "s" then
+      let a ← x.getArr?
+      match a.toList with
+      | [h, args] =>
+        return .sub (← (← h.getArr?).toList.mapM (·.getStr?)) (← (← args.getArr?).toList.mapM annOfJson)
+      | _ => throw "ann: s expects [head, args]"
+    if let some x := optField j "l" then
+      return .lst (← (← x.getArr?).toList.mapM annOfJson)
+    if (optField j "lit").isSome then return .lit
+    throw s!"ann: unknown {j.compress}"
+
+def kindStr : PKind → String
+  | .po => "po" | .pk => "pk" | .va => "va" | .ko => "ko" | .vk => "vk"
+
+def defInfoToJson (d : DefInfo) : Json :=
+  Json.mkObj [("name", .str d.name),
+    ("params", Json.arr (d.params.map fun p => Json.arr #[.str p.name, .str (kindStr p.kind), .bool p.hasDefault]).toArray),
+    ("dupFree", .bool (dupFree (d.params.map (·.name))))]
+
+/-- lex + parse one `def` header text -/
+def parseDefText (s : String) : Json :=
+  match lexPy s with
+  | none => Json.mkObj [("lex", .bool false)]
+  | some ts => match parseDef ts with
+    | none => Json.mkObj [("lex", .bool true), ("parse", .null)]
+    | some d => Json.mkObj [("lex", .bool true), ("parse", defInfoToJson d)]
+
+def parseClassText (s : String) : Json :=
+  match lexPy s with
+  | none => Json.mkObj [("lex", .bool false)]
+  | some ts => match parseClass ts with
+    | none => Json.mkObj [("lex", .bool true), ("parse", .null)]
+    | some (c, n) => Json.mkObj [("lex", .bool true), ("parse", Json.arr #[.str c, .num (Lean.JsonNumber.fromNat n)])]
+
+/-- model tokens against the lexed real text -/
+def tieToks (model : List Tok) (real : Option String) : Json :=
+  match real with
+  | none => .null
+  | some s =>
+    Json.mkObj [("eq", .bool (lexPy s == some model)), ("model", .str (toksText model)),
+      ("accepted", .bool ((parseDef model).isSome))]
+
+def optStr (j : Json) (k : String) : Except String (Option String) :=
+  match optField j k with
+  | none => pure none
+  | some x => do pure (some (← x.getStr?))
+
+def textClass (dflt apd : Bool) (classes : Array ClassInfo) (j : Json) : Except String Json := do
+  let i ← (← j.getObjVal? "i").getNat?
+  let c ← match classes[i]? with
+    | some c => pure c
+    | none => throw s!"text: class index {i} out of range"
+  let annsL ← (← (← j.getObjVal? "anns").getArr?).toList.mapM fun kv => do
+    let a ← kv.getArr?
+    match a.toList with
+    | [k, v] => pure ((← k.getStr?), (← annOfJson v))
+    | _ => throw "text: anns entry must be [name, ann]"
+  let anns : String → Ann := fun n => ((annsL.find? (fun kv => kv.1 == n)).map (·.2)).getD anyAnn
+  let bases ← match optField j "bases" with
+    | none => pure []
+    | some x => do (← x.getArr?).toList.mapM fun b => do (← b.getArr?).toList.mapM (·.getStr?)
+  let sig := stubInit dflt apd c
+  let attrs ← match optField j "attrs" with
+    | none => pure []
+    | some x => do (← x.getArr?).toList.mapM fun kv => do
+        let a ← kv.getArr?
+        match a.toList with
+        | [k, v] => pure ((← k.getStr?), (← v.getStr?))
+        | _ => throw "text: attrs entry must be [name, text]"
+  let attrBad := attrs.filterMap fun (n, t) =>
+    match sig.params.find? (fun p => p.name == n) with
+    | none => some n
+    | some p => if lexPy t == some (attrToks (anns n) p) then none else some n
+  let domain := textDomain anns sig.params
+  pure (Json.mkObj [
+    ("name", .str c.decl.name), ("domain", .bool domain),
+    ("init", tieToks (initToks anns sig) (← optStr j "init")),
+    ("shallowClone", tieToks (helperToks anns .shallowClone sig) (← optStr j "shallowClone")),
+    ("fromOtherClass", tieToks (helperToks anns .fromOtherClass sig) (← optStr j "fromOtherClass")),
+    ("fromTrustedData", tieToks (helperToks anns .fromTrustedData sig) (← optStr j "fromTrustedData")),
+    ("header", match (← optStr j "header") with
+      | none => Json.null
+      | some s => Json.mkObj [("eq", .bool (lexPy s == some (classToks c.decl.name bases))),
+                              ("model", .str (toksText (classToks c.decl.name bases)))]),
+    ("attrBad", strsToJson attrBad)])
+
+def textReport (dflt apd : Bool) (classes : Array ClassInfo) (j : Json) : Except String Json := do
+  let cls ← match optField j "classes" with
+    | none => pure []
+    | some x => do (← x.getArr?).toList.mapM (textClass dflt apd classes)
+  let strs (k : String) : Except String (List String) := match optField j k with
+    | none => pure []
+    | some x => do (← x.getArr?).toList.mapM (·.getStr?)
+  pure (Json.mkObj [
+    ("classes", Json.arr cls.toArray),
+    ("defs", Json.arr ((← strs "defs").map parseDefText).toArray),
+    ("muts", Json.arr ((← strs "muts").map parseDefText).toArray),
+    ("cls", Json.arr ((← strs "cls").map parseClassText).toArray)])
+
 def run (j : Json) : Except String Json := do
   let dflt ← optBool j "dflt" true
   let apd ← optBool j "apd" true
@@ -90,6 +198,10 @@ def run (j : Json) : Except String Json := do
         match a.toList with
         | [k, v] => pure ((← k.getStr?), (← v.getStr?))
         | _ => throw "imports entry must be [name, module]"
-  pure (Json.mkObj [("classes", Json.arr reps.toArray), ("imports", strsToJson (renderImports imports))])
+  let text ← match optField j "text" with
+    | none => pure Json.null
+    | some t => textReport dflt apd classes t
+  pure (Json.mkObj [("classes", Json.arr reps.toArray), ("imports", strsToJson (renderImports imports)),
+    ("text", text)])
 
 end Typedpy.Drive.Stub
